@@ -10,14 +10,18 @@
  * Ghost side: records the arguments, and drives the "due" monitor of the ghost descriptor g_ns:
  *    g_rdy_r / g_rdy_w become 1 when this poll reports POLLIN / POLLOUT for g_ns, g_errhup says whether this
  *    (successful) poll reported POLLERR|POLLHUP for g_ns.
+ *  - g_poll_eintr_left (default: unlimited) lets a harness bound the number of EINTR results.
  * The loop runs to the constant NF_Q (object-size parameter); a larger nfds trips MODEL-BOUND (= undecided).
  */
 #include <errno.h>
 #include <poll.h>
 #include <stddef.h>
 #include "ev_poll.h"
+int __VERIFIER_nondet_int(void);
+short __VERIFIER_nondet_short(void);
 
 unsigned g_poll_calls;
+unsigned g_poll_eintr_left = EV_POLL_EINTR_UNLIMITED;
 int g_poll_timeout;
 size_t g_poll_nfds;
 int g_poll_lastrc;
@@ -68,6 +72,11 @@ poll(struct pollfd * fds, nfds_t nfds, int timeout)
 		int e = __VERIFIER_nondet_int();
 
 		__CPROVER_assume(e > 0);
+		/* optional budget of EINTR results (set by harnesses that unwind an EINTR retry loop; bounded stand-in) */
+		if (e == EINTR && g_poll_eintr_left != EV_POLL_EINTR_UNLIMITED) {
+			__CPROVER_assume(g_poll_eintr_left > 0);
+			g_poll_eintr_left--;
+		}
 		errno = e;
 		g_poll_lasterrno = e;
 		g_poll_lastrc = -1;
